@@ -113,6 +113,13 @@ Theorem C13_int_roundtrip : forall n : N,
 Proof. exact parse_int_arg_dec. Qed.
 Print Assumptions C13_int_roundtrip.
 
+(* the printed number has no leading zero: an assembler that gives a leading 0 a meaning (octal,
+   0x, 0b, 0o prefixes) reads the same value *)
+Theorem C13_int_no_leading_zero : forall n : N, (0 < n)%N ->
+  exists d t, list_ascii_of_string (N_to_dec n) = ascii_of_N (48 + d) :: t /\ (0 < d)%N /\ (d < 10)%N.
+Proof. exact N_to_dec_no_leading_zero. Qed.
+Print Assumptions C13_int_no_leading_zero.
+
 Theorem C13_int_literal_correct : forall msel (z : Z),
   match int_value z with
   | Some n => exists line, int_line z = Some line /\ parse_stmt msel (tokens_of_line line) = push_int n
